@@ -14,6 +14,41 @@ from .values import (SBool, SInt, SReal, SStr, SBytes, SOpaque, Blob, Unsupporte
                      byte_to_int, int_to_byte, to_real, real_trunc, real_round, ite, Not, And, Or, term_bool)
 
 
+class SymRange(object):
+    """range(n) for a symbolic n: iteration needs a loop contract."""
+
+    def __init__(self, n):
+        self.n = n
+
+    def __iter__(self):
+        raise Unsupported('iteration over range(symbolic) without a loop contract')
+
+
+def sym_hash(I, x):
+    """hash of a value with symbolic parts: an uninterpreted function of its components (assumed contract:
+    equal values hash equally - congruence is all that is known)."""
+    terms = []
+
+    def flat(v):
+        if isinstance(v, (tuple, list)):
+            terms.append(z3.StringVal('(%d' % len(v)))
+            for e in v:
+                flat(e)
+        elif isinstance(v, (SInt, SBool, SReal, SStr, SOpaque)):
+            terms.append(v.t)
+        elif isinstance(v, SBytes):
+            raise Unsupported('hash of symbolic bytes')
+        else:
+            terms.append(z3.StringVal('c:%s:%r' % (type(v).__name__, v if not isinstance(v, type) else v.__qualname__)))
+    flat(x)
+    f = z3.Function('hash%d_%s' % (len(terms), '_'.join(str(t.sort()) for t in terms).replace(' ', '')),
+                    *([t.sort() for t in terms] + [z3.IntSort()]))
+    t = f(*terms)
+    if I.E.int_mode == 'bv':
+        return SInt(z3.Int2BV(t, W), None, None)
+    return SInt(t, None, None)
+
+
 class SIntStr(object):
     """str(n) for a symbolic n, only usable as a struct format count: str(n) + 's'."""
 
@@ -202,7 +237,9 @@ def table(I):
     def m_range(*a):
         a = tuple(_concretize_int(x) for x in a)
         if any(is_symbolic(x) for x in a):
-            raise Unsupported('range over a symbolic bound (needs a loop contract)')
+            if len(a) == 1:
+                return SymRange(a[0])        # only usable through a loop contract (ForSpec)
+            raise Unsupported('range over symbolic bounds with start/step')
         return range(*a)
     reg(range, m_range)
 
@@ -231,7 +268,7 @@ def table(I):
     def m_hash(x):
         from .interp import _deep_symbolic
         if _deep_symbolic(x):
-            raise Unsupported('hash of a symbolic value (needs a unit-level model)')
+            return sym_hash(I, x)
         return hash(x)
     reg(hash, m_hash)
 
